@@ -42,7 +42,8 @@ class Check(Property):
                 steps.append({"f": "convert", "src": [[a, f"{e}/1"]], "dst": [[b, f"{e}/1"]], "x": "3/2"})
             elif r < 0.32:
                 steps.append({"f": "parse", "s": rng.choice(["ab", "km", "kilometer/hour", "mV", "fm", "inch", "ms", "Pa", "cd",
-                                                             "ab/second", "fm/hour", "meter/ab", "qx/second", "smoot/second", "zork/hour"])})
+                                                             "ab/second", "fm/hour", "meter/ab", "qx/second", "smoot/second", "zork/hour",
+                                                             "kilometer", "millivolt", "millisecond", "femtometer", "megahertz"])})
             elif r < 0.44:
                 steps.append({"f": "base", "u": [[rng.choice(units), "1/1"]], "system": rng.choice(SYSTEMS + [None, None])})
             elif r < 0.52:
@@ -127,7 +128,11 @@ class Check(Property):
         out.append({"f": "base", "u": [[rng.choice(units), "1/1"]], "system": None})
         out.append({"f": "convert", "src": [["foot", "1/1"]], "dst": [["meter", "1/1"]], "x": "1/1"})
         out.append({"f": "parse", "s": "ab"})
-        return out
+        # case-insensitive questions: names registered on the fly by earlier queries must not become visible to them
+        # (asked first: the other probes register names on the fly in the reference registry too)
+        ci = [{"f": "name_ci", "s": w} for w in rng.sample(["Kilometer", "KILOMETER", "millikilometer", "Millivolt", "MILLISECOND",
+                                                             "Femtometer", "kilokm", "Megahertz", "microkilometer", "KM"], 4)]
+        return ci + out
 
     def cases(self):
         P = regs.pools()
@@ -175,6 +180,8 @@ class Check(Property):
                     ops.append({"op": "root", "u": p["u"]})
                 elif p["f"] == "dim":
                     ops.append({"op": "dim", "u": p["u"]})
+                elif p["f"] == "name_ci":
+                    ops.append({"op": "resolve", "s": p["s"], "cs": False})
             ops.append({"op": "ctx", "f": "clear"})
             ops.append({"op": "reset"})
             self.bump("history")
@@ -231,6 +238,8 @@ class Check(Property):
             return [frac_s(Fraction(ff)) if not isinstance(ff, float) else "float", sorted([k, frac_s(regs.to_frac(v))] for k, v in b._units.items())]
         if f == "dim":
             return sorted([k, frac_s(regs.to_frac(v))] for k, v in u.get_dimensionality(regs.pint_uc(u, s["u"])).items())
+        if f == "name_ci":
+            return u.get_name(s["s"], case_sensitive=False)
         if f == "format":
             return format(u.Unit(regs.pint_uc(u, s["u"], canonical=True)), "~P")
         return None
